@@ -132,23 +132,23 @@ type c10Case struct {
 }
 
 type c10Obs struct {
-	CloserFlush   string `json:"closer_flush"`
-	CloserRead    string `json:"closer_read"`
-	CloserActive  int    `json:"closer_active"`
-	CloserState   uint32 `json:"closer_state"`
-	CloserLocal   int    `json:"closer_local"`
-	CloserRemote  int    `json:"closer_remote"`
-	PeerRead      string `json:"peer_read"`
-	PeerGot       int    `json:"peer_got"`
-	PeerWant      int    `json:"peer_want"`
-	PeerFlush     string `json:"peer_flush"`
-	PeerActive    int    `json:"peer_active_before_own_close"`
-	PeerActive2   int    `json:"peer_active_after_own_close"`
-	PeerState     uint32 `json:"peer_state"`
-	PeerLocal     int    `json:"peer_local"`
-	PeerRemote    int    `json:"peer_remote"`
-	Ghost         bool     `json:"ghost"` // the server's table holds ANOTHER stream object under this id
-	States        []uint32 `json:"states"`
+	CloserFlush  string   `json:"closer_flush"`
+	CloserRead   string   `json:"closer_read"`
+	CloserActive int      `json:"closer_active"`
+	CloserState  uint32   `json:"closer_state"`
+	CloserLocal  int      `json:"closer_local"`
+	CloserRemote int      `json:"closer_remote"`
+	PeerRead     string   `json:"peer_read"`
+	PeerGot      int      `json:"peer_got"`
+	PeerWant     int      `json:"peer_want"`
+	PeerFlush    string   `json:"peer_flush"`
+	PeerActive   int      `json:"peer_active_before_own_close"`
+	PeerActive2  int      `json:"peer_active_after_own_close"`
+	PeerState    uint32   `json:"peer_state"`
+	PeerLocal    int      `json:"peer_local"`
+	PeerRemote   int      `json:"peer_remote"`
+	Ghost        bool     `json:"ghost"` // the server's table holds ANOTHER stream object under this id
+	States       []uint32 `json:"states"`
 }
 
 func c10Pair(callback bool, mk func(s *Stream) *c10Cb) (client, server *Session, l *c10Listen) {
@@ -656,8 +656,10 @@ func c10GhostCase(c c10Case) c10Case {
 }
 
 // c10InsideCase: Close() issued inside OnData when its CAS in the "callback in process" branch cannot succeed:
-//   twice            OnData calls Close() twice (the second finds the stream already locally half-closed)
-//   after-peer-close OnData is parked, the peer closes, OnRemoteClose is delivered, then OnData calls Close()
+//
+//	twice            OnData calls Close() twice (the second finds the stream already locally half-closed)
+//	after-peer-close OnData is parked, the peer closes, OnRemoteClose is delivered, then OnData calls Close()
+//
 // Every wait is bounded.  If a Close() does not return the callback goroutine is lost; the sessions of that case
 // are then NOT closed (Session.Close would wait for that goroutine on the process-wide dispatcher).
 func c10InsideCase(c c10Case) c10Case {
@@ -780,8 +782,10 @@ func c10InsideCase(c c10Case) c10Case {
 }
 
 // c10OpsAfterClose: user operations after a Close() that left the stream locally half-closed (an OnData is running):
-//   inside-ops   OnData calls Close(), then WriteBytes+Flush and a read, all inside the same OnData
-//   during-ops   OnData is parked; another goroutine calls Close(), then WriteBytes+Flush; then OnData is released
+//
+//	inside-ops   OnData calls Close(), then WriteBytes+Flush and a read, all inside the same OnData
+//	during-ops   OnData is parked; another goroutine calls Close(), then WriteBytes+Flush; then OnData is released
+//
 // Every one of these operations must fail with a closed-stream error and the peer must receive nothing flushed
 // after the Close.
 func c10OpsAfterClose(c c10Case) c10Case {
@@ -889,6 +893,15 @@ func TestVerif_C10S(t *testing.T) {
 	defer env.close()
 	r := newVrand(seed ^ 0xC10)
 	id := 0
+	budget := &c20Budget{limit: 60}
+	run := func(c c20Case, mk func() vsChooser, max int) {
+		if budget.spent() {
+			return
+		}
+		res := c20Run(env, c, mk, max)
+		budget.note(res)
+		o.emit(res)
+	}
 	for ; id < n; id++ {
 		c := c20Case{ID: id, Kind: "normal", Cmp: true, Cb0: true}
 		c.Inb = c20GenInb(r, 1+r.intn(3), 35)
@@ -903,7 +916,7 @@ func TestVerif_C10S(t *testing.T) {
 		c20GenFlushes(r, &c, 45)
 		strat, mk := c20Strategy(r, id, 1+c.NCl+len(c.Ups))
 		c.Strat = strat
-		o.emit(c20Run(env, c, mk, 3000))
+		run(c, mk, 3000)
 	}
 	// Flush after Close in each non-open state: inside OnData right after its Close() (localHalfClosed), from a user
 	// thread while OnData runs after a closer's Close() (localHalfClosed), after the peer's close (halfClosed), after
@@ -923,7 +936,7 @@ func TestVerif_C10S(t *testing.T) {
 			}
 			c.Strat = fmt.Sprintf("systematic-preempt(t%d@%d)", x, k)
 			x, k := x, k
-			o.emit(c20Run(env, c, func() vsChooser { return vsPreemptChooser(newVrand(seed+uint64(id)), x, k) }, 3000))
+			run(c, func() vsChooser { return vsPreemptChooser(newVrand(seed+uint64(id)), x, k) }, 3000)
 			id++
 		}
 	}
@@ -933,39 +946,58 @@ func TestVerif_C10S(t *testing.T) {
 			c := c20Case{ID: id, Kind: "sync", Cmp: true, Cb0: false, NCl: 1, Inb: [][]int{{1, 2}, {}}}
 			c.Strat = fmt.Sprintf("systematic-preempt(t%d@%d)", x, k)
 			x, k := x, k
-			o.emit(c20Run(env, c, func() vsChooser { return vsPreemptChooser(newVrand(seed+uint64(id)), x, k) }, 3000))
+			run(c, func() vsChooser { return vsPreemptChooser(newVrand(seed+uint64(id)), x, k) }, 3000)
 			id++
 		}
 	}
 	// deterministic witnesses of the refuted statements (schedules computed from the Coq witnesses)
-	o.emit(c20Run(env, c20Case{ID: id, Kind: "witness-inside", Strat: "fixed-prefix", Cmp: true, Cb0: true, Inb: [][]int{{1}}, Script: [][2]int{{1, 1}}},
-		func() vsChooser { return c20PrefixChooser([]int{0, 0, 0}) }, 3000))
+	run(c20Case{ID: id, Kind: "witness-inside", Strat: "fixed-prefix", Cmp: true, Cb0: true, Inb: [][]int{{1}}, Script: [][2]int{{1, 1}}},
+		func() vsChooser { return c20PrefixChooser([]int{0, 0, 0}) }, 3000)
 	id++
 	// Close() repeated inside one OnData; Close() inside OnData after the peer's close was handled during it
-	o.emit(c20Run(env, c20Case{ID: id, Kind: "inside-twice", Strat: "fixed-prefix", Cmp: true, Cb0: true, Inb: [][]int{{1}}, Script: [][2]int{{1, 2}}},
-		func() vsChooser { return c20PrefixChooser([]int{0, 0, 0}) }, 600))
+	run(c20Case{ID: id, Kind: "inside-twice", Strat: "fixed-prefix", Cmp: true, Cb0: true, Inb: [][]int{{1}}, Script: [][2]int{{1, 2}}},
+		func() vsChooser { return c20PrefixChooser([]int{0, 0, 0}) }, 600)
 	id++
-	o.emit(c20Run(env, c20Case{ID: id, Kind: "inside-after-peer-close", Strat: "fixed-prefix", Cmp: true, Cb0: true, Inb: [][]int{{1}, {}}, Script: [][2]int{{1, 1}}},
-		func() vsChooser { return c20PrefixChooser([]int{0, 0, 0, 1, 1, 0, 0}) }, 600))
+	run(c20Case{ID: id, Kind: "inside-after-peer-close", Strat: "fixed-prefix", Cmp: true, Cb0: true, Inb: [][]int{{1}, {}}, Script: [][2]int{{1, 1}}},
+		func() vsChooser { return c20PrefixChooser([]int{0, 0, 0, 1, 1, 0, 0}) }, 600)
 	id++
 	for x := 0; x < 2; x++ {
 		for k := 0; k <= 8; k++ {
 			c := c20Case{ID: id, Kind: "inside-after-peer-close", Cmp: true, Cb0: true, Inb: [][]int{{1, 2}, {}}, Script: [][2]int{{1, 1 + k%2}}}
 			c.Strat = fmt.Sprintf("systematic-preempt(t%d@%d)", x, k)
 			x, k := x, k
-			o.emit(c20Run(env, c, func() vsChooser { return vsPreemptChooser(newVrand(seed+uint64(id)), x, k) }, 600))
+			run(c, func() vsChooser { return vsPreemptChooser(newVrand(seed+uint64(id)), x, k) }, 600)
 			id++
 		}
 	}
 	// an arrival whose table lookup precedes close()'s clean and whose add follows it, moved into recvBuf by a
-	// goroutine that close()'s Wait missed (spawned between the CAS on callbackInProcess and wg.Add)
-	o.emit(c20Run(env, c20Case{ID: id, Kind: "late-arrival-residue", Strat: "fixed-prefix", Cmp: true, Cb0: true, NCl: 1, Inb: [][]int{{1}, {2}}},
-		func() vsChooser {
-			return c20PrefixChooser([]int{1, 1, 0, 0, 0, 0, 0, 1, 1, 1, 0, 0, 1, 1, 1, 1, 0, 0, 2, 2, 2, 2, 2, 2, 2, 2, 2, 2, 2, 2, 2, 2})
-		}, 600))
-	id++
-	o.emit(c20Run(env, c20Case{ID: id, Kind: "witness-cas-race", Strat: "fixed-prefix", Cmp: true, Cb0: false, NCl: 1, Inb: [][]int{{}}},
-		func() vsChooser { return c20PrefixChooser([]int{1, 1, 0, 0, 1}) }, 3000))
+	// goroutine that close()'s Wait missed (spawned between the CAS on callbackInProcess and wg.Add) — and the
+	// neighbours of that schedule (one step dropped, two adjacent steps swapped)
+	{
+		base := []int{1, 1, 0, 0, 0, 0, 0, 1, 1, 1, 0, 0, 1, 1, 1, 1, 0, 0, 2, 2, 2, 2, 2, 2, 2, 2, 2, 2, 2, 2, 2, 2}
+		variants := [][]int{base}
+		for p := 0; p < 22; p++ {
+			d := append(append([]int{}, base[:p]...), base[p+1:]...)
+			variants = append(variants, d)
+			if p+1 < len(base) && base[p] != base[p+1] {
+				w := append([]int{}, base...)
+				w[p], w[p+1] = w[p+1], w[p]
+				variants = append(variants, w)
+			}
+		}
+		for k, v := range variants {
+			v := v
+			kind := "late-arrival-residue"
+			if k > 0 {
+				kind = "late-arrival-residue-nbr"
+			}
+			run(c20Case{ID: id, Kind: kind, Strat: "fixed-prefix", Cmp: true, Cb0: true, NCl: 1, Inb: [][]int{{1}, {2}}},
+				func() vsChooser { return c20PrefixChooser(v) }, 600)
+			id++
+		}
+	}
+	run(c20Case{ID: id, Kind: "witness-cas-race", Strat: "fixed-prefix", Cmp: true, Cb0: false, NCl: 1, Inb: [][]int{{}}},
+		func() vsChooser { return c20PrefixChooser([]int{1, 1, 0, 0, 1}) }, 3000)
 	id++
 	t.Logf("emitted %d cases", id)
 }
